@@ -5,6 +5,7 @@ CONSTANTS
     L = 2
     Design = "direct"
     Policy = "trust"
+    RenameAt = "closed"
     MaxCrash = 1
     Fifo = TRUE
     EmitOn = FALSE
